@@ -18,7 +18,7 @@ RULE = ("core-grammar statements re-spaced with every blank kind (space, tab, LF
         "non-trivial = input with >= 2 lines or a non-ASCII character; distinct = distinct (text, dialect)")
 ASSUMPTIONS = ["line breaks are not placed between two bare words (multi-word keywords): listed finding with its own probe"]
 SPEC = {
-    "quick": {"shards": 16, "time_cap": 150, "statements": 4000},
+    "quick": {"shards": 16, "time_cap": 400, "statements": 4000},
     "thorough": {"shards": 16, "time_cap": 1500, "statements": 20000},
 }
 
